@@ -40,6 +40,13 @@ type PNode struct {
 	Par    bool  `json:"par,omitempty"`      // evaluate Kids in concurrent goroutines
 	AfterU int   `json:"after_us,omitempty"` // reactive.InvalidateAfter(d)
 	TimerU int   `json:"timer_us,omitempty"` // harness twin of InvalidateAfter with a tracked Cleanup
+	// LateCell >= 1 (cell index + 1): in root runs 1..8 the node spawns a
+	// goroutine that outlives the run: it waits until the monitor has seen
+	// this computation superseded, failed or stopped (at most 30 ms), then
+	// LateUS more, and then calls AddDependency on that cell's current
+	// resource with the old computation's context.
+	LateCell int `json:"late_cell_plus1,omitempty"`
+	LateUS   int `json:"late_us,omitempty"`
 	// Fail maps a root run number to "retry" or "fatal": when this node's
 	// compute function executes as part of that run it returns the error
 	// after doing its reads.
@@ -101,6 +108,9 @@ func (p *PNode) Shape() string {
 	}
 	if len(p.PurgeAt) > 0 {
 		s += fmt.Sprintf(" P%d", len(p.PurgeAt))
+	}
+	if p.LateCell > 0 {
+		s += " late"
 	}
 	for _, c := range p.KidOn {
 		if c >= 0 {
@@ -218,6 +228,24 @@ func (rr *RR) eval(ctx context.Context, n *PNode, runID int, self *inst) (*Out, 
 		if on.Ver%2 == 0 {
 			out.Reads = append(out.Reads, w.Cells[c.Then].Read(ctx, self))
 		}
+	}
+	if n.LateCell > 0 && runID <= 8 {
+		w.late.Add(1)
+		go func() {
+			defer w.late.Done()
+			dl := time.Now().Add(30 * time.Millisecond)
+			for time.Now().Before(dl) {
+				w.mu.Lock()
+				dead := self.dead
+				w.mu.Unlock()
+				if dead {
+					break
+				}
+				time.Sleep(100 * time.Microsecond)
+			}
+			time.Sleep(time.Duration(n.LateUS) * time.Microsecond)
+			w.Cells[n.LateCell-1].ReadLate(ctx, self)
+		}()
 	}
 	if n.AfterU > 0 {
 		reactive.InvalidateAfter(ctx, time.Duration(n.AfterU)*time.Microsecond)
